@@ -129,6 +129,30 @@ def h_eigen_shape(E, detail):
     return outs
 
 
+def h_comparer_shape(E, comparer, detail):
+    """every array comparer reports a submission of the wrong shape (scalar, other length, matrix) as a shape mismatch - whatever its entries and
+    its norm are (symbolic): it is never silently graded"""
+    import mitxgraders.comparers.comparers as CM
+    from mitxgraders.comparers import vector_span_comparer, vector_phase_comparer, MatrixEntryComparer
+    from mitxgraders.exceptions import InputTypeError
+    target = _arr(E, 't', (2,), 1, 3)
+    params = {'span': [target], 'phase': [target], 'entry': [target]}[comparer]
+    fn = {'span': vector_span_comparer, 'phase': vector_phase_comparer, 'entry': MatrixEntryComparer(entry_partial_credit=0.5)}[comparer]
+    outs = []
+    for bad in (_arr(E, 'w', (3,)), E.real('s'), _arr(E, 'q', (2, 2))):
+        try:
+            with shadow(CM, np=_NpWithLstsq()):
+                if comparer == 'entry':
+                    fn([params], [bad], utils_for(0.01, matrix=True, detail=detail))       # correlated comparer: one list entry per sample
+                else:
+                    fn(params, bad, utils_for(0.01, matrix=True, detail=detail))
+            outs.append('graded')
+        except InputTypeError:
+            outs.append('mismatch')
+    E.check('wrong-shape-reported-as-mismatch', outs == ['mismatch'] * 3)
+    return outs
+
+
 def h_entry(E, shape, samples, credit, tolkind='abs'):
     from mitxgraders.comparers import MatrixEntryComparer
     cmp_ = MatrixEntryComparer(entry_partial_credit=credit)
@@ -373,6 +397,8 @@ def harnesses(tier):
         add(h_eigen, 'eigen', dict(n=3, tol='abs'), '3x3 symbolic', expect_inconclusive=True)
     for d in ('type', 'shape', None):
         add(h_eigen_shape, 'eigen_shape', dict(detail=d), 'wrong shapes')
+    for cmpname in ('span', 'phase', 'entry'):
+        add(h_comparer_shape, 'comparer_shape', dict(comparer=cmpname, detail='type'), 'wrong shapes with symbolic entries (any norm)')
     for shape, samples in [((2,), 1), ((2,), 2), ((2, 2), 1), ((3,), 1)] + ([((2, 3), 2), ((3,), 3)] if T else []):
         for credit in (0, 0.5, 'proportional'):
             add(h_entry, 'entry', dict(shape='x'.join(map(str, shape)), samples=samples, credit=credit), 'symbolic entries and tolerance')
